@@ -441,7 +441,33 @@ def correspondence(rng, tier):
         S = make_space(rng, rng.choice(SPACE_KINDS))
         depth = rng.choice([2, 2, 3] if quick else [2, 3, 3, 4])
         _add(cs, rng, S, gen_tree(rng, S, depth, vs), vs)
-    return [cs]
+    return [cs, sepsum_cases(rng, tier, vs)]
+
+
+def sepsum_cases(rng, tier, vs):
+    """SeparableSum(f1, f2) of two random trees on two (different) spaces"""
+    import odl
+    cs = C.CaseSet('sepsum', ['Base.Vec', 'C09.Model', 'C09.Corr'], 'check2', 'case2')
+    for i in range(40 if tier == 'quick' else 300):
+        S1, S2 = make_space(rng, rng.choice(SPACE_KINDS)), make_space(rng, rng.choice(SPACE_KINDS))
+        f1 = gen_tree(rng, S1, rng.choice([0, 1, 2]), vs)
+        f2 = gen_tree(rng, S2, rng.choice([0, 1, 2]), vs)
+        f = odl.solvers.SeparableSum(f1.py, f2.py)
+        x1, x2, d1, d2 = vec(rng, S1), vec(rng, S2), vec(rng, S1), vec(rng, S2)
+        xe = f.domain.element([S1.elem(x1), S2.elem(x2)])
+        de = f.domain.element([S1.elem(d1), S2.elem(d2)])
+        val = float(f(xe))
+        g = f.gradient(xe)
+        g1, g2 = S1.flat(g[0]), S2.flat(g[1])
+        dv = float(f.derivative(xe)(de))
+        if not (math.isfinite(val) and math.isfinite(dv) and all(math.isfinite(t) for t in g1 + g2)):
+            continue
+        term = ('(mkCase2 %s %s %s %s %s %s %s %s %s %s %s %s %s %s %s)'
+                % (S1.wq, S2.wq, vs, f1.coq, f2.coq, C.qs(x1), C.qs(x2), C.qs(d1), C.qs(d2), C.q(val),
+                   C.qs(g1), C.qs(g2), C.q(dv), ilip(f.grad_lipschitz), C.b(bool(f.is_linear))))
+        cs.add(term, {'spaces': [S1.kind, S2.kind], 'f1': f1.desc, 'f2': f2.desc, 'x': [x1, x2], 'd': [d1, d2]},
+               (S1.kind, S2.kind, repr(f1.desc), repr(f2.desc), tuple(x1), tuple(x2)))
+    return cs
 
 
 def _add(cs, rng, S, node, vs):
